@@ -217,7 +217,7 @@ func (x *Exec) ruleIterWalk(fr *Frame, st *State, ins ssa.Instruction, callee *s
 			iterPreExprs = append(iterPreExprs, parseExprString(s))
 		}
 	}
-	penv := &SpecEnv{x: x, vars: map[string]SVal{"p": {T: p, GT: pElem}}, st: st, old: st, pkg: callee.Pkg.Pkg, lets: map[string]*Expr{}}
+	penv := &SpecEnv{x: x, vars: map[string]SVal{"p": {T: p, GT: pElem}}, st: st, old: st, pkg: fnTypesPkg(callee), lets: map[string]*Expr{}}
 	for i, e := range iterPreExprs {
 		c := penv.boolean(e)
 		if fr.nopanic {
@@ -246,7 +246,7 @@ func (x *Exec) ruleIterWalk(fr *Frame, st *State, ins ssa.Instruction, callee *s
 	}
 	entryShape := st.clone()
 	evalInv := func(s *State, c Clause, k *Term) *Term {
-		env := &SpecEnv{x: x, vars: map[string]SVal{}, st: s, old: fr.top.entry, pkg: fr.top.fn.Pkg.Pkg, lets: map[string]*Expr{}, fr: fr.top, free: x.freeOf[con]}
+		env := &SpecEnv{x: x, vars: map[string]SVal{}, st: s, old: fr.top.entry, pkg: fnTypesPkg(fr.top.fn), lets: map[string]*Expr{}, fr: fr.top, free: x.freeOf[con]}
 		for i, prm := range con.Params {
 			if i < len(fr.top.params) && i < len(fr.top.fn.Params) {
 				env.vars[prm] = SVal{T: fr.top.params[i].T, GT: fr.top.fn.Params[i].Type()}
@@ -338,7 +338,7 @@ func (x *Exec) ruleIterWalk(fr *Frame, st *State, ins ssa.Instruction, callee *s
 	k := Fresh("iterk", "Int")
 	x.assumePC(it, And(Ge(k, Int(0)), Lt(k, wlen)))
 	x.assume(it, x.iterFacts(entryShape, p, k))
-	x.assume(it, x.iterStoredFacts(it, p, pElem, callee.Pkg.Pkg, k))
+	x.assume(it, x.iterStoredFacts(it, p, pElem, fnTypesPkg(callee), k))
 	assumeInv(it, k)
 	r := x.callFunc(fr, it, ins, bodyFn, []Value{mkItem(it, k)}, body.Clo, site+".iter")
 	var outs []*State
